@@ -214,7 +214,8 @@ prop(
 
 prop(
     id="C20", module="Properties.C20", vfile="Properties/C20.v", level="proof", subcmd="c20",
-    theorems=["C20_content_preserved", "C20_key_recovered"],
+    theorems=["C20_content_preserved", "C20_key_recovered", "C20_whole_call_without_overwrite", "C20_whole_call_with_overwrite",
+              "C20_result_column_by_column", "C20_batch_boundaries_are_invisible", "C20_refused_iff"],
     counts={"quick": 480, "thorough": 20000, "search": 3200},
     rule="(a third of the sources use the all-zero salt with clustered uniform keys - two index pages per column; three keys in ten are inserted and removed "
          "again before the migration, with or without a drain in between, so that index pages have holes) "
@@ -225,7 +226,7 @@ prop(
          "Non-trivial: at least one present key with count > 1",
     assumptions=["sources are drained (one index generation) before migrating: migration of a source with a pending index growth is not exercised",
                  "btree columns cannot be migrated (the code refuses)"],
-    explanation="migration as a fold of count-many Sets per source entry into the destination's column semantics; key reconstruction from C09's key recovery",
+    explanation="migration as a fold of count-many Sets per source entry into the destination's column semantics; key reconstruction from C09's key recovery; the whole call (Model/MigrateDriver.v: column selection, one change set filled across columns and cut every COMMIT_SIZE pushes, copy of unselected columns, flush and move per column with overwrite) proved to produce the column-by-column specification for every batch size, and the model side of the K1 tie now runs that driver with the COMMIT_SIZE read from the source",
 )
 
 prop(
